@@ -6,7 +6,7 @@ props = [json.loads(l) for l in open(os.path.join(HERE, 'properties.jsonl'))]
 
 TECH = 'symbolic execution of the real code over object arrays + z3 QF_NRA (unsat for all values within bounds; sat replayed on float code)'
 
-BUILT = ['C01', 'C02', 'C11', 'C12', 'C15', 'C16', 'C17']
+BUILT = ['C01', 'C02', 'C03', 'C04', 'C05', 'C06', 'C11', 'C12', 'C15', 'C16', 'C17']
 FLOATS = 'floats read as reals (rounding/NaN/overflow outside the claim); definedness assumed (non-zero divisors, arguments in the open domain); '
 TEXTS = {
  'C01': ('for each overloaded function and each (D,P,shape) in the bound the real recurrences run on fully symbolic (real and complex) coefficients and every output '
@@ -15,6 +15,15 @@ TEXTS = {
  'C02': ('every operator x operand kind x position x broadcast shape pair in the bound is executed on symbolic operands; sums/differences/Cauchy products and the quotient\'s defining equation z*y=x are proved '
          'for all real/complex values; reflected and in-place forms proved equal to the binary expression; logical result dtype and imaginary parts checked',
          FLOATS + 'D<=3 quick / <=5 thorough, P<=2, shapes from a fixed list incl. constant arrays with more dims than the polynomial; complex scalar exponents not covered', '4 C02'),
+ 'C03': ('each program of the catalogue (one per differentiable operation, buffers/views, reductions, dot/outer ranks, inv/solve/det/logdet) and seeded random compositions is recorded by the real tracer on a symbolic Taylor curve; '
+         'the reverse sweep runs with a symbolic adjoint seed and the adjoint identity <xbar,v> = <ybar,F\'(x)v> mod t^D is proved at every order for a symbolic direction v, with F\'(x)v from symbolic differentiation of the forward DAG; exceptions in existing pullbacks are violations',
+         FLOATS + 'programs enumerated (catalogue + 12 quick / 160 thorough random), D<=2 quick / <=3(4) thorough, P<=2; LAPACK factorisations via the LU pivoting model (det/logdet); known findings listed in known_findings.txt', '4 C03'),
+ 'C04': ('each driver (gradient, jacobian, jac_vec, vec_jac, hessian, hess_vec, vec_hess, vec_hess_vec, jacobian(Taylor argument)) on graphs recorded at an independent symbolic point/kind is proved equal to symbolic first/second derivatives of the direct evaluation of the program at the symbolic evaluation point; integer-typed points included',
+         FLOATS + 'programs R^3->R^M from the catalogue + random; recording kinds ndarray / UTPM(1,1) / UTPM(2,2)', '4 C04'),
+ 'C05': ('values seen through tracer nodes while recording and every replay (new independent symbolic inputs of any kind/degree, sequences of up to 3 replays) are proved equal to the direct evaluation of the program; structural clause asserted on each recorded graph',
+         FLOATS + 'programs enumerated; structural clause is a per-run assertion, not a solver query', '4 C05'),
+ 'C06': ('for each program and history (all sequences of length <=2 over forward/reverse/driver/second-graph calls + sampled longer ones) every call on the long-lived graph is proved equal to the same call on a fresh graph; forward values of all nodes are proved unchanged by a reverse sweep; earlier results must still be intact at the end',
+         FLOATS + 'histories enumerated up to length 2 (3 thorough) + seeded samples up to 5', '4 C06'),
  'C11': ('each catalogued operation is run on P directions with independent symbols (incl. independent base points) and on each direction alone; equality of all coefficients is decided for all values; '
          'term support shows no symbol of another direction occurs', FLOATS + 'operation catalogue in symx/ops.py, D<=3/4, P<=2/3', '4 C11'),
  'C12': ("each catalogued operation at degree D and at every D'<D on the truncated symbolic input: first D' coefficients proved equal; coefficient d shown to mention no input symbol of order > d",
